@@ -2,7 +2,7 @@
 
 Decided: read/write symmetry of the code — CRTP wiring, reader/writer schema agreement per version region, count<->array
 coherence, factory completeness, pruning fixpoint.  Byte equality itself is not decided."""
-from facts import is_node, walk, where, show
+from facts import AnalysisBroken, is_node, walk, where, show
 import flow
 import schema
 import versions
@@ -243,6 +243,46 @@ def run(F, chk):
                           "the pruner continues its scan forward after a deletion: blocks that became unreferenced at lower indices "
                           "survive, so repeated load/save needs more than two rounds to converge")
     chk.floor(R6, 1)
+
+    # ------------------------------------------------------------------ R1.10
+    R10 = chk.rule("R1.10", "the packed vertex layout that BSTriShape::CalcDataSizes computes (size and offsets written to the file) accounts "
+                            "exactly for the attributes that the two readers/writers of packed vertices (BSTriShape::Sync, "
+                            "NiSkinPartition::Sync) stream: every attribute predicate (HasX() / IsSkinned()) that reserves bytes in "
+                            "CalcDataSizes guards a stream operation in both Sync bodies — bytes reserved for an attribute nobody streams "
+                            "make the stored vertex size disagree with the data, and the file never reaches a fixed point")
+    calc = F.fn1("nifly::BSTriShape::CalcDataSizes")
+
+    def _preds(fn_, only_guarding_stream):
+        out = set()
+        for n in walk(fn_.get("body") or {}):
+            if n["k"] != "If" or not is_node(n.get("cond")):
+                continue
+            if only_guarding_stream and not any(x["k"] in ("Call", "OpCall") and (x.get("cls") or "").startswith("nifly::NiStream")
+                                                for x in walk(n.get("then") or {})):
+                continue
+            if not only_guarding_stream and not any(x["k"] == "Assign" and "attributeSizes" in show(x["l"]) for x in walk(n.get("then") or {})):
+                continue
+            for c in walk(n["cond"]):
+                if c["k"] == "Call" and not c.get("args") and (c.get("short") or "").startswith(("Has", "Is")) and not c.get("ext") \
+                        and (c.get("short") not in ("IsFullPrecision", "HasType")):
+                    out.add(c["short"])
+        return out
+
+    reserved = _preds(calc, False)
+    if len(reserved) < 6:
+        raise AnalysisBroken("R1.10: fewer than 6 attribute predicates reserve bytes in BSTriShape::CalcDataSizes (%s)" % sorted(reserved))
+    for sname in ("nifly::BSTriShape::Sync", "nifly::NiSkinPartition::Sync"):
+        sfn = F.fn1(sname)
+        streamed = _preds(sfn, True)
+        for pr in sorted(reserved):
+            ok = pr in streamed
+            chk.instance(R10, ok=ok, sample={"attribute": pr, "sync": sname})
+            if not ok:
+                chk.violation("R1.10", "C01/R1.10:%s:%s" % (sname.split("::")[-2], pr), where(sfn),
+                              "BSTriShape::CalcDataSizes reserves vertex bytes (and an offset) under %s(), but %s streams nothing under "
+                              "that predicate: the vertex size written to the file does not describe the vertex data that follows, "
+                              "and every load/save round changes the file" % (pr, sname))
+    chk.floor(R10, 12)
 
     # ------------------------------------------------------------------ R1.9
     chk.share(F, "c05", ["R5.1", "R5.5"], "R1.9",
